@@ -9,7 +9,7 @@
     theorems hold for ALL their values. *)
 From Coq Require Import List ZArith Permutation.
 From V Require Import Gen.Params Lib.Hex Wire.Varint UFrames.Model UFrames.ProofsBase UFrames.Proofs UFrames.ProofsFlight
-  UFrames.ProofsValidate UFrames.ScramModel UFrames.ProofsSni UFrames.ProofsScram.
+  UFrames.ProofsCounts UFrames.ProofsValidate UFrames.ScramModel UFrames.ProofsSni UFrames.ProofsScram.
 Import ListNotations.
 Open Scope Z_scope.
 
@@ -55,6 +55,18 @@ Print Assumptions C09_random_frames_exact.
 Example C09_random_frames_nonvacuous : rf_wf (mkRF 0 3 1 4 1 3 1200).
 Proof. exact rf_wf_example. Qed.
 Print Assumptions C09_random_frames_nonvacuous.
+
+(** ... and the numbers of PING and CRYPTO frames in the payload lie in the configured bounds:
+    PING in [MinPING, max(MinPING, MaxPING-1)]; CRYPTO in the same kind of interval clamped to
+    [1, |data|] (exactly one, empty, CRYPTO frame for an empty slice) — for all oracle values. *)
+Theorem C09_random_frames_counts : forall p data base bs us,
+  rf_wf p -> 0 <= base -> base + zlen data <= maxVarInt8 ->
+  match build_internal p data base bs us with
+  | Ok (ws, _, _) => ping_bounds p (zlen (wpings ws)) /\ crypto_bounds p (zlen data) (zlen (wcryptos ws))
+  | _ => True
+  end.
+Proof. exact build_internal_counts. Qed.
+Print Assumptions C09_random_frames_counts.
 
 (** QUICMultiDatagramFrames.BuildForDatagram: the same for whichever per-datagram spec is used. *)
 Theorem C09_multidatagram_exact : forall specs idx data base bs us,
